@@ -17,6 +17,7 @@ S["C08"] = dict(title="A connection carries whole packets only", technique=TECH,
     H("verifH_C08_requests", "L08.c request wrappers: whole packets, failure closes + connPending, success only when complete", T({"faults":2}), T({"faults":3}), ("complete","failed","not-submitted")),
     H("verifH_C05_concurrent", "bounded schedule exploration: two concurrent persisted publishes, <= k preemptions: only whole packets on the wire, tokens returned", T({"preempt":2,"wfaults":0}), T({"preempt":2,"wfaults":1}, time_sec=2400, maxpaths=3000000), ("both-written-in-order","end")),
     H("verifH_C08_concurrent", "bounded schedule exploration: Publish || PublishRetained || the read routine's acknowledgement on a connection whose Write is a scheduling point, one write fault: whole packets only, each at most once, nothing after an incomplete one, success only when complete", T({"preempt":0,"wfaults":1}), T({"preempt":1,"wfaults":0}, time_sec=2400, maxpaths=3000000), ("end",), poolreuse=True),
+    H("verifH_C08_poolalias", "pooled packet buffers: while a request's bytes are handed to the Persistence or the connection, another goroutine takes a pool buffer and overwrites it; the wire and the stored record must still be the request's own packet (8 request kinds)", reach=("end","canceled"), poolreuse=True),
     "CONNECT_LIGHT",
   ],
   assumptions=["net.Conn.Write contract: err != nil implies n < len(p); err == nil implies n == len(p)",
